@@ -448,6 +448,9 @@ CLAIMED["C04"]["text"] += (" Round 7: KF-PVF-TINY-FILE is repaired (guess_file_t
 CLAIMED["C16"]["text"] += " Round 7: a channel map the container refuses is freed inside the call and moves no cell of the ledger (`setchanmap 0`; the verdict of every scenario's map comes from Sf.ChmapVerdict)."
 CLAIMED["C17"]["text"] += " Round 7: the SFC_SET_CHANNEL_MAP_INFO arm (`Sf.Command.chmapSet`) computes the container's verdict from the caller's ints: the return value is exact (0 or 1) and a refused call is pure."
 
+CLAIMED["C04"]["text"] += " Short-probe stream (vlib/shortprobe.py, `sfmodel probe`): every marker of guess_file_type cut / zero- / garbage-extended to every length 1..11 (832 files) against Sf.Small2.guessProbe."
+CLAIMED["C09"]["text"] += " Residual recorded: KF-C09-CHMAP-REMASK (foreign RDWR WAVEX whose mask has more bits than channels: the re-derived mask drops the spare bits; remask_witness)."
+
 def main():
     checks = []
     for p in PROPS:
